@@ -1120,6 +1120,13 @@ int32 psX509ParseCRL(psPool_t *pool, psX509Crl_t **crl, unsigned char *crlBin,
                     return PS_PARSE_FAIL;
                 }
 
+                /* the serial number and date must lie inside the entry */
+                if ((uint32) (p - start) + timelen > ilen)
+                {
+                    psTraceCrypto("Malformed revokedCert entry in CRL\n");
+                    psX509FreeCRL(lcrl);
+                    return PS_PARSE_FAIL;
+                }
                 /* skipping crlEntryExtensions */
                 p += ilen - (uint32) (p - start);
                 if (glen < (uint32) (p - revStart))
